@@ -8,6 +8,7 @@
 From Coq Require Import String List.
 From CMinx Require Import Base.Str Model.Parser Model.DocTypes Model.Aggregator Spec.AggSpec
      Proofs.AggClass Proofs.AggFlags.
+From CMinx Require Base.PySem Gen.PySource Proofs.SourceMatch2.
 Import ListNotations.
 
 (* the main theorem: for every flag record the entries stemming from doccomments equal those
@@ -78,3 +79,13 @@ Theorem C08_hidden_declaration_refuted :
   ltac:(let t := type of FlagExamples.documented_entries_stable_refuted in exact t).
 Proof. exact FlagExamples.documented_entries_stable_refuted. Qed.
 Print Assumptions C08_hidden_declaration_refuted.
+
+(* py2coq batch 4: enterCommand_invocation (flag lookup by reflection, stack pushes and pops, completion of an awaiting declaration) as regenerated from aggregator.py equals the model *)
+Theorem C08_enterCommand_invocation_matches_source :
+  forall fl trigger strip_fn strip_mac strip_mem consumed c st,
+    SourceMatch2.result_map SourceMatch2.full_view (enter_command fl trigger strip_fn strip_mac strip_mem consumed c st)
+    = PySource.DocumentationAggregator_enterCommand_invocation c consumed
+        (SourceMatch2.settings_of fl trigger strip_fn strip_mac strip_mem)
+        (documented st) (SourceMatch2.py_class_stack (class_stack st)) (awaiting st) (SourceMatch2.py_def_stack (def_stack st)).
+Proof. exact SourceMatch2.enterCommand_invocation_matches_source. Qed.
+Print Assumptions C08_enterCommand_invocation_matches_source.
